@@ -35,9 +35,9 @@ func drawC01(rt *rapid.T) interface{} {
 	sc.Prime = rapid.SampledFrom([]uint64{1, 2, 3, 73}).Draw(rt, "prime")
 	sc.RW = rapid.SampledFrom([]int{1, 2, 3, 10}).Draw(rt, "rw")
 	nk := rapid.IntRange(1, 3).Draw(rt, "nkeys")
-	nc := rapid.IntRange(2, 6).Draw(rt, "nclients")
+	nc := rapid.IntRange(2, hx.Pick(6, 8)).Draw(rt, "nclients")
 	for i := 0; i < nc; i++ {
-		n := rapid.IntRange(1, 4).Draw(rt, "rounds")
+		n := rapid.IntRange(1, hx.Pick(4, 7)).Draw(rt, "rounds")
 		var rs []semRound
 		for j := 0; j < n; j++ {
 			r := semRound{}
@@ -310,6 +310,7 @@ func TestC01(t *testing.T) {
 		Stubs:       []string{"sync (simsync.Mutex)", "context.Context (hx.SimCtx: cancellation and deadline are simulator events)", "goroutine scheduling (simrt)", "select choice (simulator-ordered)"},
 		Rule: "scenario = map variant x shard count x rwRatio x 2-6 clients x 1-4 rounds of Acquire{Read|Write}(ctx,key)/hold/Release with ctx in {background, pre-cancelled, cancelled by a canceller task, simulated deadline} x scheduler knobs/tape; " +
 			"non-trivial = >=2 tasks and >=1 context switch; distinct = distinct event-log hash",
+		Probes:      []string{"acquire-succeeded-with-ended-ctx", "acquire-failed-ctx", "acquire-granted-after-blocking", "acquirer-observed-blocked", "ctx-ended"},
 		Assumptions: []string{"each client holds at most one key at a time (so the harness itself cannot deadlock)", "arrival order is observed at API-quiescent instants; simultaneous arrivals are not ordered by the oracle"},
 	})
 }
